@@ -76,8 +76,13 @@ int main(void) {
 #else
   uint8_t newn = rawname[0];
   _ZN5gdstk7Library12replace_cellEPNS_4CellEPNS_7RawCellE(&lib, &cells[oi], &raw);
+#if OI < NC
   CHECK(lib.f3.f1 == NC - 1 && ((Cell**)lib.f3.f2)[0] == &cells[1 - oi], "the old cell leaves the cell list");
   CHECK(lib.f4.f1 == 1 && ((RawCell**)lib.f4.f2)[0] == &raw, "the raw cell joins the raw cell list");
+#else      /* the replaced cell object is not (or no longer) in the library: the lists stay, the references to it are still redirected */
+  CHECK(lib.f3.f1 == NC && ((Cell**)lib.f3.f2)[0] == &cells[0] && ((Cell**)lib.f3.f2)[1] == &cells[1], "a cell that is not in the library: the cell list is unchanged");
+  CHECK(lib.f4.f1 == 0, "and the raw cell list too");
+#endif
 #endif
   for (int i = 0; i < NC; i++) if (OP == 0 || i != oi) for (int j = 0; j < NR; j++) { Ref* r = &refs[i][j];
     /* references held by cells that are in the library after the edit (for OP 0 also those of the replaced cell object, which the loop never visits unless it is still listed) */
